@@ -32,7 +32,7 @@ func (m *pop3Model) retainGuardOf(at *ssa.BasicBlock, idx ssa.Value) (want bool,
 			return false
 		}
 		ia, isIA := u.X.(*ssa.IndexAddr)
-		return isIA && eng.SameField(eng.LoadedField(ia.X), m.fRetain) && sameIndex(ia.Index, idx)
+		return isIA && eng.SameField(m.loadedField(ia.X), m.fRetain) && sameIndex(ia.Index, idx)
 	}
 	for _, b := range at.Parent().Blocks {
 		for k := 0; k < len(b.Succs) && len(b.Succs) == 2; k++ {
@@ -126,7 +126,7 @@ func (m *pop3Model) visits() []pop3Visit {
 							v.idxParam = h.Params[k]
 						}
 						if u, isU := a.(*ssa.UnOp); isU {
-							if ia, isIA := u.X.(*ssa.IndexAddr); isIA && eng.SameField(eng.LoadedField(ia.X), m.fMessages) && sameIndex(ia.Index, lp.idx) {
+							if ia, isIA := u.X.(*ssa.IndexAddr); isIA && eng.SameField(m.loadedField(ia.X), m.fMessages) && sameIndex(ia.Index, lp.idx) {
 								v.elemParam = h.Params[k]
 							}
 						}
